@@ -317,6 +317,11 @@ def write_evidence(prop, tier, seed, results, crashes, problems, n_ob, n_proved,
     for r in results:
         samples.extend(r['samples'][:2])
     backends = sorted({o['backend'] for r in vc for o in r['obligations'] if not o['canary']})
+    by_backend = {}
+    for r in vc:
+        for o in r['obligations']:
+            if not o['canary'] and o['status'] == 'proved':
+                by_backend[o['backend']] = by_backend.get(o['backend'], 0) + 1
     trusted = sorted({a for r in results for a in r['assumptions']})
     stubs = sorted({a for r in results for a in r['stubs_used']})
     coverage = dict(
@@ -333,6 +338,7 @@ def write_evidence(prop, tier, seed, results, crashes, problems, n_ob, n_proved,
         canaries_refuted=sum(1 for r in results for ok in r['canaries_refuted'].values() if ok),
         solver_time_s=round(sum(r['solver_s'] for r in results), 3),
         backends=backends,
+        discharged_by_backend=by_backend,
         known_findings_hit=sorted(seen_known),
         problems=[p.split('\n')[0][:300] for p in problems][:50],
         samples=samples or [dict(note='no sample')],
